@@ -86,6 +86,11 @@ inductive LifeAct where
   | halfcr (id : String) | halfbulk (id : String)   -- goes away between CR and LF of a header / inside a bulk payload
   | stallreq (id : String)                  -- sends part of a request and stays connected
   | alive (id : String) | cmd (id : String)
+  /-- the client pipelines requests with large replies and does not read them: the server's write blocks; the client
+  stays connected -/
+  | flood (id : String)
+  /-- the client reads whatever is there until the connection ends (`down`) or nothing more comes (`up`) -/
+  | drain (id : String)
   | tlsbad (kind : String) (id : String)    -- a faulty client on the TLS port
   /-- the application (`portoff`, `SetPort(0)` / `SetTLSPort(0)`) or a connected client (`cfgport`, `CONFIG SET port 0`)
   disables a port in the configuration while the server runs; `porton` restores it.  The configuration is read by the
@@ -128,6 +133,8 @@ def lifeStepA (cfg : LifeCfg) (s : LifeSt) : LifeAct → String × LifeSt
   | .halfcr id => ("ok", s.drop id)
   | .halfbulk id => ("ok", s.drop id)
   | .stallreq _ => ("ok", s)
+  | .flood _ => ("ok", s)
+  | .drain id => (if s.has id then "up" else "down", s)
   | .quit id => (if s.has id then "+OK/down" else "gone/down", s.drop id)
   | .bad id => ("down", s.drop id)
   | .alive id => (if s.has id then "up" else "down", s)
@@ -164,6 +171,8 @@ def parseLifeAct (action : String) : Option LifeAct :=
   | ["halfcr", id] => some (.halfcr id)
   | ["halfbulk", id] => some (.halfbulk id)
   | ["stallreq", id] => some (.stallreq id)
+  | ["flood", id] => some (.flood id)
+  | ["drain", id] => some (.drain id)
   | ["quit", id] => some (.quit id)
   | ["bad", id] => some (.bad id)
   | ["alive", id] => some (.alive id)
